@@ -6,8 +6,8 @@ import argparse, hashlib, itertools, json, os, shutil, subprocess, sys, time
 sys.path.insert(0, "/verif/lib")
 from common import *
 
-INPUTS = ["main", "a", "b", "embed", "cfile", "header", "tag"]          # components of the version vector
-EVENTS = ["edit-main", "edit-a", "edit-b", "edit-embed", "edit-cfile", "edit-header", "toggle-tag", "touch-b", "noop", "clear-cache", "edit-b-samesize"]
+INPUTS = ["main", "a", "b", "embed", "cfile", "header", "tag", "decl"]          # components of the version vector
+EVENTS = ["edit-main", "edit-a", "edit-b", "edit-embed", "edit-cfile", "edit-header", "edit-decl", "toggle-tag", "touch-b", "noop", "clear-cache", "edit-b-samesize"]
 THOROUGH_EVENTS = EVENTS + ["edit-b-keep-mtime"]
 
 
@@ -20,7 +20,9 @@ def files(vec):
                   'const aVer = %d\n\nfunc Report() {\n\tprintln("a", aVer)\n\tprintln("cfile", cver())\n\tprintln("header", hver())\n\tb.Report()\n}\n' % v["a"],
         "a/wrap/wrap.c": '#include "wrap.h"\nint vt_cver(void) { return %d; }\nint vt_hver(void) { return VT_HVER; }\n' % v["cfile"],
         "a/wrap/wrap.h": "#define VT_HVER %d\n" % v["header"],
-        "b/b.go": 'package b\n\nimport _ "embed"\n\n//go:embed data.txt\nvar data string\n\nconst bVer = %d\n\nfunc Report() {\n\tprintln("b", bVer)\n\tprintln("embed", data)\n\tprintln("tag", tagVer)\n}\n' % v["b"],
+        "b/b.go": 'package b\n\nimport (\n\t_ "embed"\n\n\t"vt/d"\n)\n\n//go:embed data.txt\nvar data string\n\nconst bVer = %d\n\nfunc Report() {\n\tprintln("b", bVer)\n\tprintln("embed", data)\n\tprintln("tag", tagVer)\n\tprintln("decl", d.Ver, len(d.Rec{}.Pad))\n}\n' % v["b"],
+        # a declaration-only package (the usual shape of llgo binding packages): emits no code of its own, its constants and layouts are compiled into its importers
+        "d/d.go": 'package d\n\nconst LLGoPackage = "decl"\n\nconst Ver = %d\n\ntype Rec struct{ Pad [%d]byte }\n' % (v["decl"], v["decl"]),
         "b/data.txt": "e%d" % v["embed"],
         "b/tag_on.go": "//go:build vtag\n\npackage b\n\nconst tagVer = 1\n",
         "b/tag_off.go": "//go:build !vtag\n\npackage b\n\nconst tagVer = 0\n",
@@ -28,7 +30,7 @@ def files(vec):
 
 
 def expected(vec):
-    return "main %d\na %d\ncfile %d\nheader %d\nb %d\nembed e%d\ntag %d\n" % (vec["main"], vec["a"], vec["cfile"], vec["header"], vec["b"], vec["embed"], vec["tag"])
+    return "main %d\na %d\ncfile %d\nheader %d\nb %d\nembed e%d\ntag %d\ndecl %d %d\n" % (vec["main"], vec["a"], vec["cfile"], vec["header"], vec["b"], vec["embed"], vec["tag"], vec["decl"], vec["decl"])
 
 
 class World:
@@ -61,7 +63,7 @@ class World:
     def apply(self, ev):
         v = self.vec
         bump = {"edit-main": ("main", "main.go"), "edit-a": ("a", "a/a.go"), "edit-b": ("b", "b/b.go"), "edit-embed": ("embed", "b/data.txt"),
-                "edit-cfile": ("cfile", "a/wrap/wrap.c"), "edit-header": ("header", "a/wrap/wrap.h"), "edit-b-samesize": ("b", "b/b.go"), "edit-b-keep-mtime": ("b", "b/b.go")}
+                "edit-decl": ("decl", "d/d.go"), "edit-cfile": ("cfile", "a/wrap/wrap.c"), "edit-header": ("header", "a/wrap/wrap.h"), "edit-b-samesize": ("b", "b/b.go"), "edit-b-keep-mtime": ("b", "b/b.go")}
         if ev in bump:
             k, rel = bump[ev]
             v[k] = v[k] % 8 + 1          # single digit: the file keeps its size
@@ -116,7 +118,7 @@ def run_history(args):
         res["hits"] += h; res["miss"] += m
         res["steps"].append((ev, dict(w.vec)))
         if out != expected(w.vec):
-            stale = [k for k in INPUTS if out is not None and ("%s %s%d\n" % (k, "e" if k == "embed" else "", w.vec[k])) not in out]
+            stale = [k for k in INPUTS if out is not None and ("%s %s%d" % (k, "e" if k == "embed" else "", w.vec[k])) not in out]
             res["violation"] = ("stale:" + "+".join(stale) if stale else "/".join(hist[:i + 1]), "after %s the cached build prints %r, the inputs dictate %r %s" % (
                 " -> ".join(hist[:i + 1]), out, expected(w.vec), "" if out is not None else err))
             break
@@ -151,6 +153,40 @@ def repro_check(base, vec_events):
     return sets
 
 
+PY_SYMS = ["Sqrt", "Pow", "Sin", "Cos", "Tan", "Exp", "Log", "Floor", "Ceil", "Fabs", "Atan", "Sinh"]
+
+
+def py_repro_check(base):
+    """two fresh builds of a package that uses a dozen symbols of one Python module: identical IR (symbol loading must not follow map iteration order)"""
+    body = "".join("\ts += pymath.%s(x).Float64()\n" % f if f != "Pow" else "\ts += pymath.Pow(x, x).Float64()\n" for f in PY_SYMS)
+    files_ = {"go.mod": "module vt\n\ngo 1.24\n\nrequire github.com/goplus/lib v0.3.1\n", "go.sum": open("/verif/checks/c19/go.sum").read(),
+              "main.go": 'package main\n\nimport "vt/p"\n\nfunc main() { println(int(p.Sum() * 1000)) }\n',
+              "p/p.go": 'package p\n\nimport (\n\t"github.com/goplus/lib/py"\n\tpymath "github.com/goplus/lib/py/math"\n)\n\nfunc Sum() float64 {\n\tx := py.Float(0.5)\n\ts := 0.0\n' + body + '\treturn s\n}\n'}
+    sets = []
+    for k in range(3):
+        root = os.path.join(base, "pyrepro%d" % k)
+        shutil.rmtree(root, ignore_errors=True)
+        src = os.path.join(root, "src"); gc = os.path.join(root, "gocache"); xdg = os.path.join(root, "xdg")
+        for d_ in (src, gc, xdg):
+            os.makedirs(d_)
+        write_module(src, files_)
+        e = llgo_env("A"); e["XDG_CACHE_HOME"] = xdg; e["GOCACHE"] = gc; e["LLGO_LIB_PYTHON"] = "/usr/lib/x86_64-linux-gnu/python3.11"
+        r = subprocess.run([llgo_path(), "build", "-O0", "-gen-llfiles", "-o", os.path.join(root, "prog"), "."], cwd=src, env=e, capture_output=True, text=True, timeout=1800)
+        if r.returncode != 0:
+            return None, r.stderr[-1500:]
+        mods = []
+        for dp, dn, fn in os.walk(gc):
+            for f in fn:
+                if f.endswith(".ll"):
+                    txt = open(os.path.join(dp, f), "rb").read()
+                    if b"__llgo_py.math" in txt:
+                        body_ = b"\n".join(ln for ln in txt.split(b"\n") if not ln.startswith(b"source_filename") and not ln.startswith(b"; ModuleID"))
+                        mods.append(hashlib.sha256(body_).hexdigest()[:16])
+        sets.append(sorted(mods))
+        shutil.rmtree(root, ignore_errors=True)
+    return sets, ""
+
+
 if __name__ == "__main__":
     ap = argparse.ArgumentParser()
     ap.add_argument("--id", default="C13"); ap.add_argument("--tier", default=os.environ.get("VERIF_TIER", "quick")); ap.add_argument("--replay")
@@ -165,7 +201,7 @@ if __name__ == "__main__":
     else:
         # quick: every event from the initial state, every edit after a cache clear and before a no-op rebuild, and every ordered pair of the package edits
         edits = [e for e in evs if e.startswith("edit-") or e == "toggle-tag"]
-        hists = [[e] for e in evs] + [["clear-cache", e] for e in edits] + [["edit-b", "edit-a"], ["edit-a", "edit-b"], ["toggle-tag", "edit-b"], ["edit-b", "toggle-tag"], ["edit-b", "noop"], ["toggle-tag", "toggle-tag"]]
+        hists = [[e] for e in evs] + [["clear-cache", e] for e in edits] + [["edit-b", "edit-a"], ["edit-a", "edit-b"], ["edit-decl", "edit-decl"], ["edit-decl", "noop"], ["toggle-tag", "edit-b"], ["edit-b", "toggle-tag"], ["edit-b", "noop"], ["toggle-tag", "toggle-tag"]]
     if thorough:
         hists += [list(h) for h in itertools.product(["edit-b", "edit-embed", "edit-cfile", "toggle-tag", "clear-cache", "noop"], repeat=3)]
     if a.replay:
@@ -201,11 +237,18 @@ if __name__ == "__main__":
             a0, a1 = s[0][1].get("modules", []), s[1][1].get("modules", [])
             rep.violation("repro:" + "/".join(evs_), "two clean builds of the same sources emitted different IR: %d modules vs %d, %d module texts not shared" % (
                 len(a0), len(a1), len(set(a0) ^ set(a1))), {"history": evs_})
+    sets, err = py_repro_check(base)
+    if sets is None:
+        rep.violation("harness:pyrepro", "the Python-using package does not build:\n" + err)
+    else:
+        nrep += 1
+        if not sets[0] or any(x != sets[0] for x in sets[1:]):
+            rep.violation("repro:python-symbols", "three clean builds of a package that loads %d symbols of one Python module emitted different IR for it: %s" % (len(PY_SYMS), sets), {"history": ["pyrepro"]})
     rep.coverage.update(states=len(states), transitions=transitions, traces_validated_against_impl=len(results), evaluations=transitions, distinct_nontrivial=len(states),
         exhaustive=True, histories=len(hists), cache_hits_seen=hits, cache_misses_seen=miss, reproducibility_pairs=nrep,
         samples=[hists[len(hists) // 2], hists[-1]],
-        rule="world = module main -> a -> b (b embeds a data file and has a build-tag-gated file pair, a has an LLGoFiles C file with a header); events = %s; "
-             "every history of length <=%d%s is replayed on a fresh world with its own cache directory; state = version vector of the 7 inputs; after every step the program "
+        rule="world = module main -> a -> b -> d (b embeds a data file and has a build-tag-gated file pair, a has an LLGoFiles C file with a header, d is a declaration-only package whose constant and type layout are compiled into b); events = %s; "
+             "every history of length <=%d%s is replayed on a fresh world with its own cache directory; state = version vector of the 8 inputs; after every step the program "
              "built with the cache must print exactly the versions of its inputs (which is what a clean build prints); mtimes are set explicitly and strictly increasing" % (
                  evs, depth, " plus all length-3 histories over 6 events" if thorough else ""))
     rep.assumptions += ["-X overrides are not reachable from the llgo command line and are not enumerated", "environment-variable inputs (LLGO_*) are not toggled",
